@@ -161,10 +161,17 @@ func observe(sc *Scenario) (appdef.IAppDef, error) {
 	mixed := mixedAll(sc, app)
 	orderLost := sc.Vsql && !textOrderKept(sc, app)
 	changed := fieldsChanged(sc, app)
+	// one role slice per request context: requests with the same role list (same order) are asked with
+	// the very same slice, one after the other, as a processor does for a request and its CUDs
+	contexts := map[string][]appdef.QName{}
 	for i := range sc.Queries {
 		q := &sc.Queries[i]
 		q.Flags = nil
-		q.Obs = ask(app, q)
+		key := strings.Join(q.Roles, ",")
+		if _, ok := contexts[key]; !ok {
+			contexts[key] = callerRoles(q.Roles)
+		}
+		q.Obs = askWith(app, q, contexts[key])
 		if q.Obs != "allow" && q.Obs != "deny" {
 			continue
 		}
@@ -355,7 +362,7 @@ func emit(sc *Scenario, app appdef.IAppDef, out *kit.Out) {
 		if st.repeats > 0 {
 			tags = append(tags, "has:exact-repeat-after-other-rule")
 		}
-		for _, o := range []string{"allow", "deny", "err", "crash"} {
+		for _, o := range []string{"allow", "deny", "err", "crash", "mutated"} {
 			if outs[o] > 0 {
 				tags = append(tags, "out:"+o)
 			}
